@@ -380,6 +380,15 @@ func cmdCheck(args []string) int {
 					continue
 				}
 			}
+			if len(f.r.StaleClauses) > 0 && contractKinds[f.o.Kind] {
+				// a written loop invariant of this function names a local that no longer exists (renamed or removed): the
+				// annotation has to follow the rename before anything can be concluded from the failing proof
+				claimed--
+				undecided++
+				needsContract = append(needsContract, f.o.Name+" (stale annotation: "+f.r.StaleClauses[0]+")")
+				fmt.Printf("NEEDS-CONTRACT property=%s %s [%s]: stale annotation, %s (not reported as a violation)\n", id, f.o.Name, f.o.Answer, f.r.StaleClauses[0])
+				continue
+			}
 			if len(f.r.NewLoopHelpers) > 0 {
 				// the obligation was generated through a helper that is new since the baseline, contains loops and
 				// does not meet its package's default contract: it has no invariants, so the proof is limited by the
